@@ -3525,6 +3525,14 @@ class State:
 
     def patch_indirect_dependencies(self, module_refs: set[str], types: set[Type]) -> None:
         assert self.ancestors is not None
+        # Indirect dependencies are recomputed below. A suppressed indirect dependency can
+        # only be a left-over from the previous run's cache (see the end of load_graph()):
+        # forget it, otherwise it is written to the new cache and on the next run drags a
+        # module that is no longer part of the build (but still exists on disk) back in.
+        for dep in [d for d in self.suppressed if self.priorities.get(d) == PRI_INDIRECT]:
+            self.suppressed.remove(dep)
+            self.suppressed_set.discard(dep)
+            del self.priorities[dep]
         existing_deps = set(self.dependencies + self.suppressed + self.ancestors)
         existing_deps.add(self.id)
 
